@@ -508,6 +508,10 @@ class JuniperFormatter(CommonFormatter):
     def cmd_paths(self, patch, _prev=tuple()):
         commands = JuniperPatch()
 
+        def is_cmd(key, word):
+            # the row IS that command (`delete ...`), not a statement whose name merely begins with it (`delete-binding-on-renegotiation`)
+            return key == word or key.startswith(word + " ")
+
         for item in patch.itms:
             key, childs, context = item.row, item.child, item.context
 
@@ -518,7 +522,7 @@ class JuniperFormatter(CommonFormatter):
                 if "comment" in context:
                     value = (
                         ""
-                        if key.startswith("delete")
+                        if is_cmd(key, "delete")
                         else key.removeprefix(self.Comment.begin).removesuffix(self.Comment.end).strip()
                     )
                     cmds = (
@@ -526,15 +530,15 @@ class JuniperFormatter(CommonFormatter):
                         " ".join(("annotate", context["row"].split(" ")[0], f'"{value}"')),
                         "exit"
                     )
-                elif key.startswith("delete"):
+                elif is_cmd(key, "delete"):
                     cmds = (
                         " ".join(("delete", *_prev, key.replace("delete", "", 1).strip())),
                     )
-                elif key.startswith("activate"):
+                elif is_cmd(key, "activate"):
                     cmds = (
                         " ".join(("activate", *_prev, key.replace("activate", "", 1).strip())),
                     )
-                elif key.startswith("deactivate"):
+                elif is_cmd(key, "deactivate"):
                     cmds = (
                         " ".join(("deactivate", *_prev, key.replace("deactivate", "", 1).strip())),
                     )
